@@ -89,6 +89,10 @@ def parent_of(spec):
     g = spec["genome"]
     if spec.get("chunk"):
         return chunk_parent(g, spec["chunk"][0], spec["chunk"][1], idiom=spec.get("chunk_idiom", "api")), spec["chunk"][0], g[spec["chunk"][0]:spec["chunk"][1]]
+    if spec.get("anonymous_chromosome"):
+        # a whole chromosome that carries no name (seq_to_parent(sequence) without an id): the edited molecule the library builds
+        # for a haplotype has the same (absent) name, type and length - it must still not be mistaken for the reference
+        return chrom_parent(g, name=None), 0, g
     return chrom_parent(g), 0, g
 
 
@@ -194,6 +198,8 @@ def check_lifted(ctx, clause, lifted, eb, strand, cs, v):
 
 
 def check_incorporate(spec, ctx):
+    if spec.get("anonymous_chromosome") and not spec.get("chunk"):
+        ctx.label("anonymous_chromosome")
     g = spec["genome"]
     kind, o = spec["kind"], spec["obj"]
     variants = spec["variants"]
@@ -456,6 +462,7 @@ def strat_lift(draw, tier="quick"):
         sp["chunk_idiom"] = draw(st.sampled_from(["api", "api", "docstring"]))
     else:
         sp["preused"] = draw(st.sampled_from([None, None, "other_reference", "sequence_less"]))
+        sp["anonymous_chromosome"] = draw(st.integers(0, 3)) == 0
     return sp
 
 
@@ -514,6 +521,7 @@ def strat_incorporate(draw, tier="quick"):
         sp["chunk_idiom"] = draw(st.sampled_from(["api", "api", "docstring"]))
     else:
         sp["preused"] = draw(st.sampled_from([None, None, "other_reference", "sequence_less"]))
+        sp["anonymous_chromosome"] = draw(st.integers(0, 3)) == 0
     return sp
 
 
